@@ -238,10 +238,9 @@ def evaluate__map_merge(self: XPathFunction, context: ta.ContextType = None) -> 
                     items.pop(k1)  # remove before to replace the key
                     items[k1] = v
                 elif duplicates == 'combine':
-                    if isinstance(items[k1], list):
-                        items[k1] = [*items[k1], v]  # don't modify the value of a source map
-                    else:
-                        items[k1] = [items[k1], v]
+                    # sequence concatenation, without modifying the value of a source map
+                    items[k1] = [*(items[k1] if isinstance(items[k1], list) else [items[k1]]),
+                                 *(v if isinstance(v, list) else [v])]
                 continue
 
             # TODO: too slow. An alternative idea is to couple with the type
@@ -254,10 +253,9 @@ def evaluate__map_merge(self: XPathFunction, context: ta.ContextType = None) -> 
                         items.pop(k2)  # remove before to replace the key
                         items[k1] = v
                     elif duplicates == 'combine':
-                        if isinstance(items[k2], list):
-                            items[k2] = [*items[k2], v]  # don't modify the value of a source map
-                        else:
-                            items[k2] = [items[k2], v]
+                        # sequence concatenation, without modifying the value of a source map
+                        items[k2] = [*(items[k2] if isinstance(items[k2], list) else [items[k2]]),
+                                     *(v if isinstance(v, list) else [v])]
                     break
             else:
                 items[k1] = v
